@@ -2,10 +2,12 @@ package internal
 
 import (
 	"context"
+	"fmt"
 	"github.com/markusressel/fan2go/internal/configuration"
 	"github.com/markusressel/fan2go/internal/sensors"
 	"github.com/markusressel/fan2go/internal/ui"
 	"github.com/markusressel/fan2go/internal/util"
+	"math"
 	"time"
 )
 
@@ -46,6 +48,9 @@ func updateSensor(s sensors.Sensor) (err error) {
 	value, err := s.GetValue()
 	if err != nil {
 		return err
+	}
+	if math.IsNaN(value) || math.IsInf(value, 0) {
+		return fmt.Errorf("sensor %s: ignoring non-finite value %v", s.GetId(), value)
 	}
 
 	var n = configuration.CurrentConfig.TempRollingWindowSize
